@@ -99,7 +99,8 @@ PROPS = {
     ),
     "C08": dict(
         gens=[tlc("c08"), rand("sms_leaf", 500, "quick"), rand("sms_leaf", 30000, "thorough")],
-        tv_props=["C08"],
+        tv_props=["C08", "DRIFT"],
+        mc=[dict(module="MC_SplitM.tla", cfg="MC_SplitM")],
         must_fire=["C08.stream_columns", "C08.stream_lines", "C08.final_columns", "C08.final_lines",
                    "C08.declared_tables", "C08.via_enclosing_map"],
         rule="every text/map pair of the scope served by SourceMapSource and by a user-defined source over "
@@ -119,6 +120,7 @@ PROPS = {
     "C10": dict(
         gens=[tlc("c10", "quick"), tlc("c10full", "thorough"), rand("cached_hist", 500, "quick"), rand("cached_hist", 30000, "thorough")],
         tv_props=["C10"],
+        mc=[dict(module="MC_SplitM.tla", cfg="MC_SplitM")],
         must_fire=["C10.source", "C10.buffer", "C10.size", "C10.hash_stable",
                    "C10.map_cold", "C10.map_filled_by_map", "C10.map_filled_by_stream", "C10.map_through_parent",
                    "C10.stream_cold", "C10.stream_filled_by_map", "C10.stream_filled_by_stream"],
